@@ -88,37 +88,6 @@ theorem input_eq (k : Kcp) (data : Bytes) (regular ackNoDelay : Bool) (now : U32
          (inputLoop regular (data.length / IKCP_OVERHEAD + 1) data { k := k }).ret, [], false⟩ else
       inputTail (inputLoop regular (data.length / IKCP_OVERHEAD + 1) data { k := k }) k.snd_una regular ackNoDelay now := rfl
 
-/-! ### the side condition: no fast-ack comparison against a never-transmitted segment -/
-
-/-- processing one segment in state `st` never lets `parse_fastack` compare the literal-0 `ts` of a
-never-transmitted `snd_buf` entry with the ACK's timestamp -/
-def segSafe (regular : Bool) (st : InLoop) (cmd : BitVec 8) (wnd : BitVec 16) (sn una : U32) : Bool :=
-  if cmd.toNat = IKCP_CMD_ACK then
-    fastackSafe (parseAck (procCommon regular st wnd una).k sn) sn
-  else true
-
-/-- `segSafe` for every segment `inputLoop` processes -/
-def inputLoopSafe (regular : Bool) : Nat → Bytes → InLoop → Bool
-  | 0, _, _ => true
-  | fuel + 1, data, st =>
-    if data.length < IKCP_OVERHEAD then true else
-    if rd32 data 0 ≠ st.k.conv then true else
-    if (data.drop IKCP_OVERHEAD).length < (rd32 data 20).toNat ∨ (rd32 data 20).toNat > mtuLimit then true else
-    if (BitVec.ofNat 8 (byteAt data 4)).toNat ≠ IKCP_CMD_PUSH ∧ (BitVec.ofNat 8 (byteAt data 4)).toNat ≠ IKCP_CMD_ACK ∧
-        (BitVec.ofNat 8 (byteAt data 4)).toNat ≠ IKCP_CMD_WASK ∧ (BitVec.ofNat 8 (byteAt data 4)).toNat ≠ IKCP_CMD_WINS then true else
-    segSafe regular st (BitVec.ofNat 8 (byteAt data 4)) (rd16 data 6) (rd32 data 12) (rd32 data 16) &&
-    (if (procSeg regular st (rd32 data 0) (BitVec.ofNat 8 (byteAt data 4)) (BitVec.ofNat 8 (byteAt data 5))
-            (rd16 data 6) (rd32 data 8) (rd32 data 12) (rd32 data 16)
-            ((data.drop IKCP_OVERHEAD).take (rd32 data 20).toNat)).panic then true
-     else inputLoopSafe regular fuel ((data.drop IKCP_OVERHEAD).drop (rd32 data 20).toNat)
-        (procSeg regular st (rd32 data 0) (BitVec.ofNat 8 (byteAt data 4)) (BitVec.ofNat 8 (byteAt data 5))
-            (rd16 data 6) (rd32 data 8) (rd32 data 12) (rd32 data 16)
-            ((data.drop IKCP_OVERHEAD).take (rd32 data 20).toNat)))
-
-/-- the side condition of the shift theorem for `Input(data)` in state `k` -/
-def inputSafe (k : Kcp) (data : Bytes) (regular : Bool) : Bool :=
-  inputLoopSafe regular (data.length / IKCP_OVERHEAD + 1) data { k := k }
-
 /-! ### simulation of one segment -/
 
 structure ISim (σ : Sigma) (st st' : InLoop) : Prop where
@@ -144,11 +113,10 @@ theorem procCommon_sim {σ : Sigma} {st st' : InLoop} (h : ISim σ st st') (regu
       (st.flushSeg || decide ((parseUna k1 una).2 > 0)) := by rw [p2, h.flushSeg]
   exact { h with k := shrinkBuf_sim p1, flushSeg := e }
 
-theorem procAck_sim {σ : Sigma} {st st' : InLoop} (h : ISim σ st st') (ts sn : U32)
-    (hs : fastackSafe (parseAck st.k sn) sn = true) :
+theorem procAck_sim {σ : Sigma} {st st' : InLoop} (h : ISim σ st st') (ts sn : U32) :
     ISim σ (procAck st ts sn) (procAck st' (ts + σ.t) (sn + σ.a)) := by
   unfold procAck
-  obtain ⟨f1, f2⟩ := parseFastack_sim (parseAck_sim h.k sn) sn ts hs
+  obtain ⟨f1, f2⟩ := parseFastack_sim (parseAck_sim h.k sn) sn ts
   have e : (st'.flushSeg || (parseFastack (parseAck st'.k (sn + σ.a)) (sn + σ.a) (ts + σ.t)).2) =
       (st.flushSeg || (parseFastack (parseAck st.k sn) sn ts).2) := by rw [f2, h.flushSeg]
   exact { h with k := f1, flushSeg := e, updRtt := rfl, latest := fun _ => rfl }
@@ -183,8 +151,7 @@ theorem procWask_sim {σ : Sigma} {st st' : InLoop} (h : ISim σ st st') : ISim 
   exact { h with k := { h.k with probe := congrArg (· ||| u32 IKCP_ASK_TELL) h.k.probe } }
 
 theorem procSeg_sim {σ : Sigma} {st st' : InLoop} (h : ISim σ st st') (regular : Bool) (conv : U32)
-    (cmd frg : BitVec 8) (wnd : BitVec 16) (ts sn una : U32) (payload : Bytes)
-    (hs : segSafe regular st cmd wnd sn una = true) :
+    (cmd frg : BitVec 8) (wnd : BitVec 16) (ts sn una : U32) (payload : Bytes) :
     ISim σ (procSeg regular st conv cmd frg wnd ts sn una payload)
       (procSeg regular st' conv cmd frg wnd (ts + (inDeltas σ cmd.toNat).1) (sn + (inDeltas σ cmd.toNat).2.1)
         (una + (inDeltas σ cmd.toNat).2.2) payload) := by
@@ -192,8 +159,7 @@ theorem procSeg_sim {σ : Sigma} {st st' : InLoop} (h : ISim σ st st') (regular
   unfold procSeg
   by_cases cA : cmd.toNat = IKCP_CMD_ACK
   · simp only [inDeltas, cA, if_neg hPA, if_true]
-    simp only [segSafe, if_pos cA] at hs
-    exact procAck_sim (procCommon_sim h regular wnd una) ts sn hs
+    exact procAck_sim (procCommon_sim h regular wnd una) ts sn
   simp only [if_neg cA]
   by_cases cP : cmd.toNat = IKCP_CMD_PUSH
   · simp only [if_pos cP, inDeltas]
